@@ -798,7 +798,9 @@ def c10n(ctx):
     first: sorted by the size of their extent, largest first"""
     fn = ctx.fn('mapproxy/image/mask.py:image_mask_from_geom')
     # where a polygon is painted: the call of the local painter, or (painter written out) the exterior drawn with draw.polygon
-    draws = [x for x in fn.walk() if is_call(x, 'draw_polygon')]
+    painters = {d.name for d in fn.node.body if isinstance(d, ast.FunctionDef) and
+                any(isinstance(x, ast.Attribute) and x.attr == 'exterior' for x in ast.walk(d))}
+    draws = [x for x in fn.walk() if isinstance(x, ast.Call) and isinstance(x.func, ast.Name) and x.func.id in painters]
     if not draws:
         draws = [x for x in fn.walk() if isinstance(x, ast.Call) and isinstance(x.func, ast.Attribute) and x.func.attr == 'polygon' and
                  contains(x, lambda y: isinstance(y, ast.Attribute) and y.attr == 'exterior')]
